@@ -115,6 +115,7 @@ type machine struct {
 	nBatches, nValues, nNegative, nTrim, nBelowThr, nAutoPause, nStranger, nNoField int
 	// restart statistics
 	nRestart, nRestartRunning, nRestartOpenBatch, nRestartOneValue, nRestartCollapse int
+	nRestartManyValues                                                               int
 	nValueAfterRestart, nAutoPauseAfterRestart, nTrimAfterRestart, nBelowThrAfterRestart int
 	// feeds that were running at the last restart and have not been started again by their creator (generator hint)
 	pendingStart []int
@@ -579,8 +580,9 @@ func (m *machine) restart() error {
 				delete(f.batches, n) // abandoned: its requests are gone, it never completes
 			}
 		}
-		if len(f.values) >= 2 {
-			// known finding F9b: resynchronise, demanding only that nothing new appears and something is left
+		if len(f.values) >= 2 && pbt.IsKnown("C12/oracle-value-history-collapses") {
+			// while finding F9b is listed as known: resynchronise, demanding only that nothing new appears and
+			// something is left (once it is repaired the whole history must come back: the ordinary clauses decide)
 			got := c.E.K.Oracle.GetFeedValues(c.Ctx, f.name)
 			j := 0
 			var kept []val
@@ -615,7 +617,8 @@ func (m *machine) restart() error {
 	count(anyRunning, &m.nRestartRunning)
 	count(anyOpen, &m.nRestartOpenBatch)
 	count(anyOne, &m.nRestartOneValue)
-	count(anyMany, &m.nRestartCollapse)
+	count(anyMany && pbt.IsKnown("C12/oracle-value-history-collapses"), &m.nRestartCollapse)
+	count(anyMany, &m.nRestartManyValues)
 	return nil
 }
 
@@ -836,6 +839,7 @@ func (m *machine) Classify() (bool, []string) {
 	add(m.nRestartOpenBatch > 0, "reimport-with-open-batch")
 	add(m.nRestartOneValue > 0, "reimport-with-one-stored-value")
 	add(m.nRestartCollapse > 0, "skipped:C12/oracle-value-history-collapses")
+	add(m.nRestartManyValues > 0, "reimport-with->=2-stored-values")
 	add(m.nValueAfterRestart > 0, "reimport-then-value")
 	add(m.nTrimAfterRestart > 0, "reimport-then-history-trim")
 	add(m.nBelowThrAfterRestart > 0, "reimport-then-below-threshold-batch")
